@@ -80,3 +80,36 @@ Theorem pickle_fresh t st : tree_side AU true t -> lock_closed_t t = true ->
 Proof.
   intros Hs Hl Hc. apply (pickle_consolidated_as t); [now apply consolidate_mem|exact Hl].
 Qed.
+
+(* ------------------------------------------------------------------ the offset clause of the guard is necessary *)
+(* a weaker guard: the recomputed metadata equals the stored one and every tensor is SOME view of the storage *)
+Fixpoint allviews_t (t : tree) : bool := match t with Node _ f => allviews_f f end
+with allviews_f (f : forest) : bool :=
+  match f with
+  | FNil => true
+  | FLeaf _ _ v r => (match v with Some _ => true | None => false end) && allviews_f r
+  | FNonT _ _ _ r => allviews_f r
+  | FSub _ t r => allviews_t t && allviews_f r
+  end.
+Definition snapshot_current_weak (st : cstate) (sn : snapshot) : bool :=
+  (if mtree_eq_dec (fst (meta_t AU true (cur st) 0)) (sn_meta sn) then true else false) && allviews_t (cur st).
+
+Local Open Scope string_scope.
+Definition f32 (v : Z) : leaf := {| l_dt := 7; l_esz := 4; l_shape := [3]; l_bytes := [v; 0; 0; 0; v; 0; 0; 0; v; 0; 0; 0]%Z |}.
+Definition t_swap : tree :=
+  Node {| m_bs := [3]; m_names := [None]; m_dev := None; m_locked := false |} (FLeaf "a" (f32 1) None (FLeaf "b" (f32 2) None FNil)).
+
+(* consolidate(); a, b = td["a"], td["b"]; td.set("a", b); td.set("b", a): two tensors of one dtype and shape trade places.
+   The metadata recomputed now is the stored one and both tensors are still views of the storage -- yet the rebuild of the
+   snapshot has them un-swapped.  Only the clause "every view at ITS layout offset" (vok_t) rejects the snapshot. *)
+Theorem guard_offsets_necessary :
+  let st := run {| cur := t_swap; snap := None |} [OConsolidate false; OSwap [] "a" "b"] in
+  exists sn t', snap st = Some sn /\ snapshot_current_weak st sn = true /\ snapshot_current st sn = false /\
+    rebuild_t (sn_storage sn) false (sn_meta sn) = Ok t' /\
+    leaf_at (cur st) [] "a" = Some (f32 2) /\ leaf_at t' [] "a" = Some (f32 1) /\
+    exists st', pickle_roundtrip st = Ok st' /\ leaf_at (cur st') [] "a" = Some (f32 2) /\ leaf_at (cur st') [] "b" = Some (f32 1).
+Proof.
+  cbv zeta. do 2 eexists. split; [vm_compute; reflexivity|]. split; [vm_compute; reflexivity|]. split; [vm_compute; reflexivity|].
+  split; [vm_compute; reflexivity|]. split; [reflexivity|]. split; [reflexivity|].
+  eexists. split; [vm_compute; reflexivity|]. split; reflexivity.
+Qed.
